@@ -146,35 +146,47 @@ package agent
 //@   modifies *
 
 
+// C15: the forward table. A new forward is appended behind the existing ones with exactly the
+// given ids, addresses and target and no connection yet; lookup returns the first entry with the id
+// (nil iff none); open dials that entry's own target, once; write/read use that entry's connection.
 //@ func (a *Agent) PortFwdNew(SocketID int, LclAddr int, LclPort int, FwdAddr int, FwdPort int, Target string)
 //@   requires unlocked: !held(a.PortFwdsMtx)
 //@   requires nonnil: a != nil
-//@   modifies *
+//@   modifies a.PortFwds, elems(a.PortFwds)
+//@   ensures-local appended: len(a.PortFwds) == old(len(a.PortFwds)) + 1 && a.PortFwds[:old(len(a.PortFwds))] == old(a.PortFwds) && a.PortFwds[old(len(a.PortFwds))] == portfwd && fresh(portfwd)
+//@   ensures-local fields: portfwd.SocktID == SocketID && portfwd.LclAddr == LclAddr && portfwd.LclPort == LclPort && portfwd.FwdAddr == FwdAddr && portfwd.FwdPort == FwdPort && portfwd.Target == Target && portfwd.Conn == nil
 //@ func (a *Agent) PortFwdGet(SocketID int) (r *PortFwd)
 //@   requires entries: forall(i, 0, len(a.PortFwds), a.PortFwds[i] != nil)
 //@   requires unlocked: !held(a.PortFwdsMtx)
 //@   requires nonnil: a != nil
-//@   modifies *
+//@   ensures found: r != nil ==> exists(i, 0, len(a.PortFwds), a.PortFwds[i] == r && r.SocktID == SocketID && forall(k, 0, i, a.PortFwds[k].SocktID != SocketID))
+//@   ensures none:  r == nil ==> forall(i, 0, len(a.PortFwds), a.PortFwds[i].SocktID != SocketID)
+//@   loop "for i := range a.PortFwds"
+//@     invariant scan: forall(k, 0, idx__, a.PortFwds[k].SocktID != SocketID)
 //@ func (a *Agent) PortFwdIsOpen(SocketID int) (r bool, err error)
 //@   requires entries: forall(i, 0, len(a.PortFwds), a.PortFwds[i] != nil)
 //@   requires unlocked: !held(a.PortFwdsMtx)
 //@   requires nonnil: a != nil
-//@   modifies *
+//@   ensures-local open:    PortFwd != nil ==> (err == nil && r == (PortFwd.Conn != nil) && PortFwd.SocktID == SocketID)
+//@   ensures-local missing: PortFwd == nil ==> (!r && err != nil)
 //@ func (a *Agent) PortFwdOpen(SocketID int) (err error)
 //@   requires entries: forall(i, 0, len(a.PortFwds), a.PortFwds[i] != nil)
 //@   requires unlocked: !held(a.PortFwdsMtx)
 //@   requires nonnil: a != nil
 //@   modifies *
+//@   guard-call dial: "Dial" arg(0) == "tcp" && PortFwd != nil && PortFwd.SocktID == SocketID && arg(1) == PortFwd.Target && PortFwd.Conn == nil
 //@ func (a *Agent) PortFwdWrite(SocketID int, data []byte) (err error)
 //@   requires entries: forall(i, 0, len(a.PortFwds), a.PortFwds[i] != nil)
 //@   requires unlocked: !held(a.PortFwdsMtx)
 //@   requires nonnil: a != nil
 //@   modifies *
+//@   guard-call sink: "Write" PortFwd != nil && PortFwd.SocktID == SocketID && arg(0) == PortFwd.Conn && sameslice(arg(1), data)
 //@ func (a *Agent) PortFwdRead(SocketID int) (r []byte, err error)
 //@   requires entries: forall(i, 0, len(a.PortFwds), a.PortFwds[i] != nil)
 //@   requires unlocked: !held(a.PortFwdsMtx)
 //@   requires nonnil: a != nil
 //@   modifies *
+//@   guard-call source: "Copy" PortFwd != nil && PortFwd.SocktID == SocketID && typeis(arg(1), net.Conn) == typeis(PortFwd.Conn, net.Conn) && arg(1) == PortFwd.Conn
 // C15: closing a forward removes exactly the first entry with that id, whether or not it was ever dialled; the others keep their order.
 //@ func (a *Agent) PortFwdClose(SocketID int)
 //@   requires entries: forall(i, 0, len(a.PortFwds), a.PortFwds[i] != nil)
@@ -186,11 +198,15 @@ package agent
 //@   loop "for i := range a.PortFwds"
 //@     invariant none: forall(k, 0, idx__, a.PortFwds[k].SocktID != SocketID)
 //@     invariant same: sameslice(a.PortFwds, old(a.PortFwds)) && a.PortFwds == old(a.PortFwds)
+// C15: a new relay entry is appended behind the existing ones and holds exactly the socket id,
+// connection, address type, address and port of the request; it is not connected yet.
 //@ func (a *Agent) SocksClientAdd(SocketID int32, conn net.Conn, ATYP byte, IpDomain []byte, Port uint16) (r *SocksClient)
 //@   requires unlocked: !held(a.SocksCliMtx)
 //@   requires nonnil: a != nil
-//@   modifies *
-//@   ensures nonnil: r != nil
+//@   modifies a.SocksCli, elems(a.SocksCli)
+//@   ensures nonnil: r != nil && fresh(r)
+//@   ensures appended: len(a.SocksCli) == old(len(a.SocksCli)) + 1 && a.SocksCli[:old(len(a.SocksCli))] == old(a.SocksCli) && a.SocksCli[old(len(a.SocksCli))] == r
+//@   ensures fields: r.SocketID == SocketID && r.Conn == conn && !r.Connected && r.ATYP == ATYP && sameslice(r.IpDomain, IpDomain) && r.Port == Port
 // C15: a relay is found by the 32-bit value of its id (callbacks deliver ids zero-extended):
 // the first entry with that id, or nil exactly when there is none.
 //@ func (a *Agent) SocksClientGet(SocketID int) (r *SocksClient)
@@ -201,19 +217,37 @@ package agent
 //@   ensures none:  r == nil ==> forall(i, 0, len(a.SocksCli), a.SocksCli[i].SocketID != int32(SocketID))
 //@   loop "for i := range a.SocksCli"
 //@     invariant scan: client == nil && forall(k, 0, idx__, a.SocksCli[k].SocketID != int32(SocketID))
+// C15: what is relayed to the agent is what was read from this client's own connection: the first
+// `length` bytes of the buffer the read filled.
 //@ func (a *Agent) SocksClientRead(client *SocksClient) (r []byte, err error)
 //@   requires nonnil: a != nil && client != nil && client.Conn != nil
 //@   modifies *
+//@   guard-call own: "Read" arg(0) == client.Conn && client.Connected
+//@   ensures-local got: (err == nil && inscope("length")) ==> (len(r) == length && forall(k, 0, length, r[k] == data[k]))
+// C15: closing a relay removes exactly the first entry with that id (reported by the result), closes
+// its connection if it has one, and keeps the order of the others.
 //@ func (a *Agent) SocksClientClose(SocketID int32) (r bool)
 //@   requires entries: forall(i, 0, len(a.SocksCli), a.SocksCli[i] != nil)
 //@   requires unlocked: !held(a.SocksCliMtx)
 //@   requires nonnil: a != nil
-//@   modifies *
+//@   modifies a.SocksCli, elems(a.SocksCli), allof(SocksClient.Conn)
+//@   ensures-local absent:  forall(k, 0, old(len(a.SocksCli)), old(a.SocksCli)[k].SocketID != SocketID) ==> (a.SocksCli == old(a.SocksCli) && !r)
+//@   ensures-local removed: forall(j, 0, old(len(a.SocksCli)), (old(a.SocksCli)[j].SocketID == SocketID && forall(k, 0, j, old(a.SocksCli)[k].SocketID != SocketID)) ==> (r && a.SocksCli == cat(old(a.SocksCli)[:j], old(a.SocksCli)[j+1:])))
+//@   guard-call own: "Close" arg(0) == a.SocksCli[i].Conn && a.SocksCli[i].SocketID == SocketID
+//@   loop "for i := range a.SocksCli"
+//@     invariant none: !found && forall(k, 0, idx__, a.SocksCli[k].SocketID != SocketID)
+//@     invariant same: sameslice(a.SocksCli, old(a.SocksCli)) && a.SocksCli == old(a.SocksCli)
+// C15: removing a SOCKS server removes exactly the first entry listening on that address.
 //@ func (a *Agent) SocksServerRemove(Addr string)
 //@   requires entries: forall(i, 0, len(a.SocksSvr), a.SocksSvr[i] != nil)
 //@   requires unlocked: !held(a.SocksSvrMtx)
 //@   requires nonnil: a != nil
 //@   modifies *
+//@   ensures-local absent:  forall(k, 0, old(len(a.SocksSvr)), old(a.SocksSvr)[k].Addr != Addr) ==> a.SocksSvr == old(a.SocksSvr)
+//@   guard-call own: "Close" arg(0) == a.SocksSvr[i].Server && a.SocksSvr[i].Addr == Addr
+//@   loop "for i := range a.SocksSvr"
+//@     invariant none: forall(k, 0, idx__, a.SocksSvr[k].Addr != Addr)
+//@     invariant same: sameslice(a.SocksSvr, old(a.SocksSvr)) && a.SocksSvr == old(a.SocksSvr)
 
 //@ func getWindowsVersionString(OsVersion []int) (r string)
 //@   requires five: len(OsVersion) >= 5
